@@ -813,5 +813,5 @@ class Flwdir(object):
         # snap to streams
         streams = self._check_data(streams, "streams", optional=True)
         if streams is not None:
-            idxs = self.snap(idxs=idxs, mask=streams)[0]
+            idxs = core.snap(idxs, self.idxs_ds, mask=streams, mv=self._mv)[0]
         return idxs
